@@ -208,7 +208,7 @@ func genC15(seed uint64, idx int, tier string) *Scenario {
 					data = r.Bytes(r.Range(1, 1200))
 					if r.Chance(0.15) {
 						// large datagrams, around the sizes relay buffers come in (kept below the 32 KiB of io.Copy's own buffer)
-						data = r.Bytes([]int{2047, 2048, 2049, 4094, 4095, 4096, 4097, 8190, 8192, 8193, 9000, 16384, 16385, 20000}[r.Intn(14)])
+						data = r.Bytes([]int{2047, 2048, 2049, 4094, 4095, 4096, 4097, 8190, 8192, 8193, 9000, 16384, 16385, 20000, 32766, 32767, 32769, 40000, 65000}[r.Intn(19)])
 					}
 				}
 				reply := append([]byte("R:"), data...)
